@@ -1,7 +1,7 @@
 (* Entry points of the executable model, by name. One dispatcher so that the OCaml driver and
    the in-Coq case files need no per-function glue. *)
 From Coq Require Import ZArith NArith List String Bool.
-From Sia Require Import Prim.Result Prim.Tok Currency.Model Merkle.Tree Merkle.Forest Merkle.Acc Merkle.Rhp Policy.Model Pow.Model Codec.Schema Codec.Shape Codec.Irregular Gen.Schemas Codec.Wire Ledger.Types Ledger.Mid Ledger.Validate Ledger.Apply Hash.Ids Merkle.Multi Gateway.Outline Rhp4.Model Codec.Size Gen.Limits Codec.Framing Text.Hex Text.Currency Text.PolicyText.
+From Sia Require Import Prim.Result Prim.Tok Currency.Model Merkle.Tree Merkle.Update Merkle.UpdateProofs Merkle.Forest Merkle.Acc Merkle.Rhp Policy.Model Pow.Model Codec.Schema Codec.Shape Codec.Irregular Gen.Schemas Codec.Wire Ledger.Types Ledger.Mid Ledger.Validate Ledger.Apply Hash.Ids Merkle.Multi Gateway.Outline Rhp4.Model Codec.Size Gen.Limits Codec.Framing Text.Hex Text.Currency Text.PolicyText.
 Import ListNotations.
 Open Scope string_scope.
 Open Scope list_scope.
@@ -56,6 +56,24 @@ Section Dispatch.
         ++ List.concat (map (fun k => t_hashes (naive_proof H LH k)) tr)
         ++ [TZ (-1)]
         ++ map (fun q => tbool (contains_leaf H a (fst q) (snd q))) qs)%list
+    | None => bad_args
+    end.
+
+  (* updateLeaves + updateProof inside one tree of height h: the updated leaves (index, new leaf hash, proof before the
+     block, bottom-up) and other leaves of the tree (index, proof before the block); returns the new root, the updated
+     leaves' new proofs and the other leaves' patched proofs, bottom-up *)
+  Definition api_c05_update (args : list tok) : list tok :=
+    match run_parser (let* h := pnat in
+                      let* us := plist (let* i := pN in let* y := pB in let* pr := plist pB in pret (i, y, pr)) in
+                      let* ts := plist (let* i := pN in let* pr := plist pB in pret (i, pr)) in pret (h, us, ts)) args with
+    | Some (h, us, ts) =>
+      let pos_of (i : N) := path h (N.modulo i (2 ^ N.of_nat h)) in
+      let ls := map (fun '(i, y, pr) => Build_uleaf hash (pos_of i) y (rev pr)) us in
+      let '(rt, ls') := recompute hash (Acc.node H) h [] ls in
+      let find_new (p : list bool) := match find (fun u => if list_eq_dec Bool.bool_dec (pos hash u) p then true else false) ls' with
+                                      | Some u => rev (prf hash u) | None => [] end in
+      (TB rt :: List.concat (map (fun '(i, _, _) => t_hashes (find_new (pos_of i))) us)
+         ++ List.concat (map (fun '(i, pr) => t_hashes (rev (update_proof hash (Acc.node H) (pos_of i) (rev pr) ls'))) ts))%list
     | None => bad_args
     end.
 
@@ -576,6 +594,7 @@ Section Dispatch.
     | "c12.derive1", [TB nm; TB i] => [TB (derive H nm i)]
     | "c12.raw", [TB i; TZ k] => [TB (H (id_index_args i (Z.to_N k)))]
     | "c05.run", _ => api_c05 args
+    | "c05.update", _ => api_c05_update args
     | "c05.leafhash", [TB e; TZ i; TZ s] => [TB (leaf_hash H (mkLeaf e (Z.to_N i) (negb (Z.eqb s 0))))]
     | "c05.proofroot", TB x :: TZ i :: ps => [TB (proofRootN H x (Z.to_N i) (List.concat (map (fun t => match t with TB b => [b] | _ => [] end) ps)))]
     | _, _ => bad_args
